@@ -205,6 +205,149 @@ fn run(v: &Value) -> Result<String, String> {
             }
             Ok(log.join(" "))
         }
+        "client_write_timeout_then_call" => {
+            // C05 scenario for the blocking client: a write timeout interrupts a large request mid-frame
+            // (the peer is stalled), then the peer resumes reading and the application makes another call
+            // on the same client. The bytes the peer receives must be whole frames only: an interrupted
+            // frame may be the LAST thing on the connection, never followed by further frames.
+            use std::io::Read as _;
+            use std::net::TcpListener;
+            use std::time::Duration;
+            let big = v.get("big_bytes").and_then(|x| x.as_u64()).unwrap_or(32 << 20) as usize;
+            let listener = TcpListener::bind("127.0.0.1:0").unwrap();
+            let addr = listener.local_addr().unwrap();
+            let peer = std::thread::spawn(move || {
+                let (mut s, _) = listener.accept().unwrap();
+                std::thread::sleep(Duration::from_millis(600)); // stalled peer
+                s.set_read_timeout(Some(Duration::from_millis(800))).unwrap();
+                let mut all = Vec::new();
+                let mut buf = vec![0u8; 1 << 16];
+                loop {
+                    match s.read(&mut buf) {
+                        Ok(0) => break,
+                        Ok(n) => all.extend_from_slice(&buf[..n]),
+                        Err(_) => break,
+                    }
+                }
+                all
+            });
+            let client = repe::Client::connect(addr).unwrap();
+            client.set_write_timeout(Some(Duration::from_millis(100))).unwrap();
+            let payload = vec![0x5Au8; big];
+            let first = client.notify_with_formats("/big", 1, Some(&payload[..]), 0u16);
+            let first_s = match &first { Ok(_) => "Ok".to_string(), Err(e) => format!("Err({e})") };
+            std::thread::sleep(Duration::from_millis(700)); // peer drains meanwhile
+            let second = client.notify_with_formats("/small", 1, Some(&b"hi"[..]), 0u16);
+            let second_s = match &second { Ok(_) => "Ok".to_string(), Err(e) => format!("Err({e})") };
+            drop(client);
+            let bytes = peer.join().unwrap();
+            // walk the received stream frame by frame
+            let mut off = 0usize;
+            let mut frames = 0;
+            while off < bytes.len() {
+                if bytes.len() - off < 48 {
+                    break; // truncated tail: allowed only at the very end
+                }
+                match repe::Header::decode(&bytes[off..off + 48]) {
+                    Ok(h) => {
+                        let total = h.length as usize;
+                        if off + total > bytes.len() {
+                            off = bytes.len(); // truncated last frame: fine, nothing follows it
+                            break;
+                        }
+                        off += total;
+                        frames += 1;
+                    }
+                    Err(e) => {
+                        return Err(format!(
+                            "peer stream desynchronised at byte {off} of {} after {frames} whole frames ({e}); first call: {first_s}; second call: {second_s}",
+                            bytes.len()
+                        ));
+                    }
+                }
+            }
+            // a torn frame swallows whatever follows it: look for the second request's bytes inside the
+            // region the torn frame claims
+            let torn_tail = off == bytes.len() && {
+                let mut o = 0usize;
+                let mut torn = false;
+                while o + 48 <= bytes.len() {
+                    let h = repe::Header::decode(&bytes[o..o + 48]).unwrap();
+                    if o + h.length as usize > bytes.len() {
+                        torn = true;
+                        break;
+                    }
+                    o += h.length as usize;
+                }
+                torn || (bytes.len() - o > 0 && bytes.len() - o < 48)
+            };
+            let second_on_wire = bytes.windows(6).any(|w| w == b"/small");
+            if torn_tail && second_on_wire {
+                return Err(format!(
+                    "a frame was written after an interrupted (torn) frame: first call {first_s}, second call {second_s}; peer received {} bytes, {frames} whole frames, then a torn frame that swallows the second request",
+                    bytes.len()
+                ));
+            }
+            Ok(format!("first={first_s} second={second_s} received={} bytes, {frames} whole frames", bytes.len()))
+        }
+        "async_server_write_timeout" => {
+            // C05 scenario for the async server: write_timeout configured, response larger than the socket
+            // buffers, peer stalled past the timeout, then a second request on the same connection.
+            use std::io::{Read as _, Write as _};
+            use std::time::Duration;
+            let big = v.get("big_bytes").and_then(|x| x.as_u64()).unwrap_or(24 << 20) as usize;
+            let rt = tokio::runtime::Builder::new_multi_thread().worker_threads(2).enable_all().build().unwrap();
+            let router = repe::Router::new()
+                .with_json("/big", move |_v: serde_json::Value| Ok(serde_json::Value::String("x".repeat(big))))
+                .with_json("/small", |_v: serde_json::Value| Ok(serde_json::json!("ok")));
+            let listener = rt.block_on(repe::AsyncServer::listen("127.0.0.1:0")).unwrap();
+            let addr = listener.local_addr().unwrap();
+            let server = repe::AsyncServer::new(router).write_timeout(Some(Duration::from_millis(100)));
+            rt.spawn(async move {
+                let _ = server.serve(listener).await;
+            });
+            let mut s = std::net::TcpStream::connect(addr).unwrap();
+            let req = |id: u64, path: &str| {
+                repe::Message::builder().id(id).query_str(path).query_format(repe::QueryFormat::JsonPointer)
+                    .body_json(&serde_json::json!(null)).unwrap().build().to_vec()
+            };
+            s.write_all(&req(1, "/big")).unwrap();
+            std::thread::sleep(Duration::from_millis(1500)); // stalled reader: the server's write times out
+            s.write_all(&req(2, "/small")).unwrap();
+            s.set_read_timeout(Some(Duration::from_millis(1500))).unwrap();
+            let mut bytes = Vec::new();
+            let mut buf = vec![0u8; 1 << 16];
+            loop {
+                match s.read(&mut buf) {
+                    Ok(0) => break,
+                    Ok(n) => bytes.extend_from_slice(&buf[..n]),
+                    Err(_) => break,
+                }
+            }
+            let mut off = 0usize;
+            let mut frames = 0;
+            while off + 48 <= bytes.len() {
+                match repe::Header::decode(&bytes[off..off + 48]) {
+                    Ok(h) => {
+                        if off + h.length as usize > bytes.len() {
+                            // torn frame: nothing may follow it -- look for the second response inside it
+                            let second = repe::Message::builder().id(2).build().header.encode();
+                            let _ = second;
+                            let tail = &bytes[off + 48..];
+                            let has_second = tail.windows(4).any(|w| w == b"\"ok\"");
+                            if has_second {
+                                return Err(format!("response 2 was written after a torn response 1: {} bytes received, torn frame declares {} bytes", bytes.len(), h.length));
+                            }
+                            break;
+                        }
+                        off += h.length as usize;
+                        frames += 1;
+                    }
+                    Err(e) => return Err(format!("client stream desynchronised at byte {off} of {} after {frames} whole frames: {e}", bytes.len())),
+                }
+            }
+            Ok(format!("received {} bytes, {frames} whole frames", bytes.len()))
+        }
         other => panic!("unknown replay entry `{other}`"),
     }
 }
